@@ -22,7 +22,9 @@ def scenarios(tier):
     sc = [("adds", Config(levels=1, ndisks=2), base, adds, True, ()),
           ("adds", Config(levels=2, ndisks=2, contents=["c0/content", "c1/content", "d1/.content"]), base, adds, True, ()),
           ("mixed", Config(levels=2, ndisks=2), base, mixed, False, ()),
-          ("mixed", Config(levels=1, ndisks=2, contents=["c0/content", "c1/content"]), base, mixed, False, ())]
+          ("mixed", Config(levels=1, ndisks=2, contents=["c0/content", "c1/content"]), base, mixed, False, ()),
+          # a hash migration is pending while the sync is interrupted
+          ("adds-rehash", Config(levels=2, ndisks=2), base + [("cmd", "rehash")], adds, True, ())]
     if tier == "thorough":
         sc += [("adds", Config(levels=3, ndisks=2, splits={0: 2, 1: 2, 2: 2}, parity_limit=4096), base, adds, True, ()),
                ("adds-autosave", Config(levels=2, ndisks=2), base, adds, True, ("--test-force-autosave-at", "3")),
